@@ -197,6 +197,13 @@ func DependsOn(v ssa.Value, pred func(ssa.Value) bool) bool {
 							return true
 						}
 					}
+				case *ssa.FieldAddr:
+					// the object itself is the value of interest (e.g. &wrapErr{err: e}): all its fields count
+					for _, r2 := range *st.Referrers() {
+						if s2, ok := r2.(*ssa.Store); ok && s2.Addr == ssa.Value(st) && walk(s2.Val) {
+							return true
+						}
+					}
 				}
 			}
 			return false
